@@ -92,15 +92,22 @@ def gen_cache_spec(rng, nmax=9, dependent_sources=True):
     i = 0
     while i < n:
         r = rng.random()
-        prev = [nd["id"] for nd in nodes if nd["kind"] != "producer"]
+        prev = [nd["id"] for nd in nodes if nd["kind"] not in ("producer", "token")]
         if i == 0 or r < 0.18:
             nodes.append({"id": i, "kind": "source", "args": [], "deps": []})
-        elif r < 0.26 and dependent_sources and i + 1 < n:
-            # a producer call and the dependent source it writes (well-formed: private producer, single predecessor)
+        elif r < 0.26 and dependent_sources and i + 2 < n:
+            # a producer call and the dependent source it writes (well-formed: private producer, single predecessor);
+            # sometimes with a plain literal used as an ordering token in between
             args = rng.sample(prev, min(len(prev), rng.choice([0, 1, 2])))
-            nodes.append({"id": i, "kind": "producer", "args": sorted(args), "deps": [], "writes": i + 1})
-            nodes.append({"id": i + 1, "kind": "dsource", "args": [], "deps": [i]})
-            i += 1
+            if rng.random() < 0.4:
+                nodes.append({"id": i, "kind": "producer", "args": sorted(args), "deps": [], "writes": i + 2})
+                nodes.append({"id": i + 1, "kind": "token", "args": [], "deps": [i]})
+                nodes.append({"id": i + 2, "kind": "dsource", "args": [], "deps": [i + 1]})
+                i += 2
+            else:
+                nodes.append({"id": i, "kind": "producer", "args": sorted(args), "deps": [], "writes": i + 1})
+                nodes.append({"id": i + 1, "kind": "dsource", "args": [], "deps": [i]})
+                i += 1
         elif r < 0.34:
             deps = rng.sample(prev, min(len(prev), rng.choice([0, 1, 1, 2])))
             nodes.append({"id": i, "kind": "lit", "args": [], "deps": sorted(deps)})
@@ -142,6 +149,7 @@ def build_cache(spec, env):
     b.reg = uberjob.Registry()
     b.N, b.stores, b.ver = {}, {}, {}
     b.failing = set()
+    b.payload = {}
     kinds = {nd["id"]: nd["kind"] for nd in spec["nodes"]}
     b.kinds = kinds
 
@@ -152,6 +160,7 @@ def build_cache(spec, env):
                 raise Cut("call %d fails" % i)
             if writes is not None:
                 b.ver[writes] = b.ver.get(writes, 0) + 1
+                b.payload[writes] = ("a", i) + tuple(args)      # what the producer computed this content from
                 st = b.stores[writes]
                 st.value, st.mtime = ("s", writes, b.ver[writes]), env.tick()
                 env.rec.add("write", writes, st.value, st.mtime)
@@ -166,7 +175,7 @@ def build_cache(spec, env):
         if k in ("source", "dsource"):
             b.stores[i] = MemStore(i, env)
             b.N[i] = b.reg.source(b.plan, b.stores[i])
-        elif k == "lit":
+        elif k in ("lit", "token"):
             b.N[i] = b.plan.lit(("a", i))
         else:
             b.N[i] = b.plan.call(mkfn(i, nd.get("writes")), *[b.N[a] for a in nd["args"]])
@@ -283,7 +292,7 @@ def run_history(spec, hseed, steps, driver, props, mode="prim"):
             q("cop update %d 1 %d" % (i, b.stores[i].mtime), "eq", "ok", "cop")
     compare_state("init")
 
-    ids = [nd["id"] for nd in spec["nodes"] if nd["kind"] != "producer"]   # a producer is consumed only through its source
+    ids = [nd["id"] for nd in spec["nodes"] if nd["kind"] not in ("producer", "token")]   # a producer is consumed only through its source
     for step in range(steps):
         r = rng.random()
         stats["ops"] += 1
@@ -340,6 +349,14 @@ def run_history(spec, hseed, steps, driver, props, mode="prim"):
                         q("cseen %d" % o, "eq", term(rr.value[k]), f"run output #{k} (node {o})")
                         if "C03" in props and rr.value[k] != fs[o]:
                             viol.append({"property": "C03", "what": f"run returned {term(rr.value[k])} for node {o}, from scratch gives {term(fs[o])}",
+                                         "step": desc})
+                for nd in spec["nodes"]:
+                    # a dependent source must hold what its producer would write from scratch
+                    if nd["kind"] == "producer" and "C03" in props and b.stores[nd["writes"]].mtime is not None:
+                        want = ("a", nd["id"]) + tuple(fs[a] for a in nd["args"])
+                        if b.payload.get(nd["writes"]) != want:
+                            viol.append({"property": "C03", "what": f"dependent source {nd['writes']} holds content produced from "
+                                         f"{term(b.payload.get(nd['writes'])) if nd['writes'] in b.payload else None}, from scratch its producer computes {term(want)}",
                                          "step": desc})
                 for i, s in b.stores.items():
                     if b.kinds[i] == "stored" and "C03" in props and s.value != fs[i]:
